@@ -384,6 +384,72 @@ func packetScenario(s spec) *engine.Scenario {
 	return sc
 }
 
+// twoReaders: two threads read from ONE packet handle at the same time (a net.PacketConn may be
+// used like that) while two datagrams of different lengths arrive from two senders: each read
+// returns one whole datagram together with its own sender, each datagram is returned once.
+func twoReaders() *engine.Scenario {
+	type got struct{ data, from string }
+	var reads []got
+	var errs []string
+	sc := &engine.Scenario{Name: "packet-two-readers"}
+	sc.Body = func() {
+		reads, errs = nil, nil
+		vnet.Reset()
+		m := service.NewListenerManager()
+		pc, err := m.ListenPacket(addr)
+		if err != nil {
+			panic(err)
+		}
+		var rs []*vrt.Thread
+		for i := 0; i < 2; i++ {
+			rs = append(rs, vrt.Spawn(fmt.Sprintf("reader%d", i), func() {
+				buf := make([]byte, 16)
+				for j := range buf {
+					buf[j] = 0xEE
+				}
+				n, from, err := pc.ReadFrom(buf)
+				if err != nil {
+					errs = append(errs, err.Error())
+					return
+				}
+				reads = append(reads, got{fmt.Sprint(buf[:n]), from.String()})
+			}))
+		}
+		s1, _ := vnet.EnvListenUDP(world.UDPAddr("203.0.113.7:5001"))
+		s2, _ := vnet.EnvListenUDP(world.UDPAddr("203.0.113.8:5002"))
+		snd := vrt.Spawn("senders", func() {
+			s1.WriteTo([]byte{1}, world.UDPAddr(addr))
+			s2.WriteTo([]byte{2, 2, 2}, world.UDPAddr(addr))
+		})
+		vrt.Join(append(rs, snd)...)
+		pc.Close()
+		vrt.WaitIdle()
+	}
+	sc.Check = func(x *vrt.Exec) (string, bool, []*engine.Finding) {
+		fs := hk.Generic(x, hk.Opts{})
+		if len(fs) == 0 {
+			want := map[got]bool{{"[1]", "203.0.113.7:5001"}: true, {"[2 2 2]", "203.0.113.8:5002"}: true}
+			seen := map[got]int{}
+			for _, r := range reads {
+				seen[r]++
+				if !want[r] {
+					fs = append(fs, &engine.Finding{Sig: "datagram-mangled{concurrent-reads}", Msg: fmt.Sprintf("two reads at once on one handle: a read returned %s from %s, which nobody sent (sent: [1] from 203.0.113.7:5001, [2 2 2] from 203.0.113.8:5002)", r.data, r.from)})
+				}
+			}
+			for w := range want {
+				if seen[w] != 1 {
+					fs = append(fs, &engine.Finding{Sig: "delivery-count{concurrent-reads}", Msg: fmt.Sprintf("two reads at once on one handle: datagram %s from %s was returned %d times", w.data, w.from, seen[w])})
+				}
+			}
+			for _, e := range errs {
+				fs = append(fs, &engine.Finding{Sig: "read-error{concurrent-reads}", Msg: e})
+			}
+		}
+		return fmt.Sprint(reads, errs), true, fs
+	}
+	return sc
+}
+
 func specs(tier string) []spec {
 	var out []spec
 	for _, p := range []bool{false, true} {
@@ -421,6 +487,7 @@ func scenarios(tier string) []*engine.Scenario {
 			out = append(out, streamScenario(s))
 		}
 	}
+	out = append(out, twoReaders())
 	return out
 }
 
